@@ -38,9 +38,11 @@ JOBS = min(common.NCPU, 4)
 CLI = os.path.join(os.path.dirname(os.path.dirname(os.path.abspath(__file__))), "cli_run.py")
 EXTRA_IDS = ["POP", "SWAP1", "DUP1", "NOP", "ADD"]
 
-OPTSETS = {"quick": [["-greedy"], ["-greedy", "-storage"], ["-greedy", "-partition", "-size"]],
+# -push0 DISABLES PUSH0: the replay has to honour it exactly as the run that wrote the log did
+OPTSETS = {"quick": [["-greedy"], ["-greedy", "-storage"], ["-greedy", "-partition", "-size"], ["-greedy", "-push0"]],
            "thorough": [["-greedy"], ["-greedy", "-storage"], ["-greedy", "-partition", "-size"], ["-greedy", "-size"],
-                        ["-greedy", "-storage", "-size"], ["-greedy", "-partition"]]}
+                        ["-greedy", "-storage", "-size"], ["-greedy", "-partition"], ["-greedy", "-push0"],
+                        ["-greedy", "-size", "-push0"]]}
 REPLAY_ACTIONS = ["ReplayFromLog", "ReplayBlockOK", "ReplayReject", "ReplayFinish"]
 MODEL_REPLAY_ACTIONS = ["aReplayFromLog", "aReplayBlockOK", "aReplayReject", "aReplayFinish"]
 
